@@ -84,11 +84,26 @@ def streams(tier, rng):
             sc = ';'.join(o for o in sc.split(';') if o != 'SYSTERR') or '-'
             if rng.random() < 0.15:
                 sc = (sc + ';RHDR:5;RDATA:6162').lstrip('-;')       # leaves a block unfinished
+            elif rng.random() < 0.1:
+                sc = ('RDATA:5758;' + sc).rstrip('-;')              # block data without a header of its own: always refused (-310)
             table.append((tag, p, sc))
         As = [tmsg(rng) for _ in range(rng.choice([1, 1, 1, 2, 3]))]
         B = tmsg(rng)
-        ab = gen.scenario(256, 64, table, [('I', a) for a in As] + [('I', B)])
-        b = gen.scenario(256, 64, table, [('I', B)])
+        ins = [('I', a) for a in As]
+        capb = 256
+        if rng.random() < 0.12:
+            # an overlong message A delivered in two pieces: the second piece overruns a small buffer and A is discarded
+            capb = 64
+            long_a = b'TXT "' + b'x' * rng.randint(60, 90) + b'"\n'
+            cut = rng.randint(5, 40)
+            head = rng.choice([b'', b'TEST:A?;', b'II 2;'])
+            ins.append(('I', head + long_a[:cut]))
+            ins.append(('I', long_a[cut:]))
+            if len(B) > 60:
+                B = b'*IDN?\n'
+        ab = gen.scenario(capb, 64, table, ins + [('I', B)])
+        b = gen.scenario(capb, 64, table, [('I', B)])
+        As = [x for _, x in ins]
         pairs.append((len(cases), len(As), As, B))
         cases += [ab, b]
 
